@@ -8,6 +8,7 @@ harness (reference evaluator written in Go) on every run.
 import Vuego.Model.Interp
 import Vuego.Model.ExprMini
 import Vuego.Lemmas.Stack
+import Vuego.Props.C13Call
 namespace Vuego.Props.C13
 open Go Vuego
 
@@ -78,6 +79,47 @@ theorem function_error_is_prefixed (name : Str) (c : String) (m : Str) :
     wrapErr (name ++ "(): ".toList) (.err c m : Res Val) = .err c (name ++ "(): ".toList ++ m) := rfl
 
 example : callBuiltin "upper".toList [] = some (arityErr 1 0) := by rfl
+
+/-- the built-in `len` of a string counts BYTES of its UTF-8 form (as Go's `len`), so a character outside ASCII counts more than once -/
+theorem len_of_string_is_byte_length (s : Str) : callBuiltin "len".toList [.str s] = some (.ok (.int .int (utf8Len s))) := by rfl
+
+theorem utf8Len_append (a b : Str) : utf8Len (a ++ b) = utf8Len a + utf8Len b := by
+  have h : ∀ (l : Str) (acc : Nat), l.foldl (fun n c => n + c.utf8Size) acc = acc + l.foldl (fun n c => n + c.utf8Size) 0 := by
+    intro l
+    induction l with
+    | nil => intro acc; simp
+    | cons c r ih => intro acc; simp only [List.foldl_cons]; rw [ih (acc + c.utf8Size), ih (0 + c.utf8Size)]; omega
+  unfold utf8Len
+  rw [List.foldl_append, h b]
+
+/-- ... and never less than the number of characters -/
+theorem length_le_utf8Len (s : Str) : s.length ≤ utf8Len s := by
+  induction s with
+  | nil => simp [utf8Len]
+  | cons c r ih =>
+    have h1 : utf8Len (c :: r) = utf8Len [c] + utf8Len r := utf8Len_append [c] r
+    have h2 : utf8Len [c] = c.utf8Size := by simp [utf8Len]
+    have h3 : 1 ≤ c.utf8Size := Char.utf8Size_pos c
+    simp only [List.length_cons]; omega
+
+/-- the built-in `int` of a string of decimal digits is the number they spell; of anything that is no number it is 0 -/
+theorem int_of_digit_string (d : Str) (hne : d ≠ []) (hd : d.all isDigit = true) (hlen : d.length ≤ 18) :
+    callBuiltin "int".toList [.str d] = some (.ok (.int .int (digitsToNat d))) := by
+  have h := Vuego.Props.C13Call.parseInt64_of_digits d hne hd hlen
+  have e : callBuiltin "int".toList [.str d] = some (.ok (match Call.parseInt64 d with | some n => .int .int n | none => .int .int 0)) := by rfl
+  rw [e, h]
+
+theorem int_of_other_values_is_zero (v : Val) (h : match v with | .int .int _ | .int .int64 _ | .float .float64 _ _ | .str _ => False | _ => True) :
+    callBuiltin "int".toList [v] = some (.ok (.int .int 0)) := by
+  cases v with
+  | int k n => cases k <;> first | rfl | exact h.elim
+  | float k z p => cases k <;> first | rfl | exact h.elim
+  | str s => exact h.elim
+  | _ => rfl
+
+/-- `int` of a float truncates toward zero (the float is carried by its printed form) -/
+example : floatTrunc "2.5".toList = 2 ∧ floatTrunc "-2.5".toList = -2 ∧ floatTrunc "1e+06".toList = 1000000 ∧ floatTrunc "1.5e-07".toList = 0
+    ∧ floatTrunc "123456.789".toList = 123456 ∧ floatTrunc "NaN".toList = -9223372036854775808 ∧ floatTrunc "1e+30".toList = -9223372036854775808 := by decide
 
 /-- RECORDED FINDING `pipe-in-condition-unsupported`: a pipe inside a condition is not sent to the pipe interpreter; when expr-lang rejects it
     and the text does not resolve as a path, the condition is silently false (pinned by TestEvalCondition_ExprCompilationFailureFallback) -/
